@@ -31,7 +31,7 @@ MANIFEST = dict(
     technique="TLA+ spec of the DataProcessor fetch loop and per-command cross-batch state vs whole-sequence reference semantics (TLC exhaustive over chains x tables x ALL chunkings) + replay of every enumerated chunking on the real DataProcessor chain built from SPL text, and e2e through block/segment layout",
     text=("spec/Pipeline.tla transcribes DataProcessor.Fetch (streaming/bottleneck/two-pass with Rewind, CachedStream, EOF "
           "conventions, empty batches) and the Process/GetFinalResultIfExists/Rewind methods of head (count and expression forms: "
-          "limit, null, keeplast), tail, dedup, sort, where, "
+          "limit, null, keeplast), tail, dedup (limit, consecutive, keepempty, keepevents), sort, where, "
           "fields, rename, fillnull (both forms), eval (+, if), bin (span and two-pass), streamstats (count/sum, by, window, "
           "reset_on_change), top/rare, stats, makemv/mvexpand; TLC checks Concat(out) in SemChain(chain, table) and prefix "
           "stability for every single command, every valid pair and a core set of triples, every table of <=3-4 rows, every "
